@@ -190,9 +190,89 @@ def rule_f(ctx):
 TS = "util::task_set::"
 
 
+def _taskset_words(ctx):
+    """operand-level clauses of the packed head word of the TaskSet: low 32 bits = index of the first scheduled task (or EMPTY /
+    SLEEPING), high 32 bits = notification countdown"""
+    from ..masks import mask_cmp, const_eval
+    P = ctx.prog
+    it = lambda n: (P.items.get(TS + n) or {}).get("v")
+    EMPTY, IMASK, CONE, CMASK = it("EMPTY"), it("INDEX_MASK"), it("COUNTDOWN_ONE"), it("COUNTDOWN_MASK")
+    if None in (EMPTY, IMASK, CONE, CMASK):
+        return ctx.missing("TaskSet constants")
+    M = (1 << 64) - 1
+    ctx.ob("taskset|word-layout", IMASK == (1 << 32) - 1 and CMASK == (~IMASK) & M and CONE == IMASK + 1 and EMPTY < IMASK and (EMPTY & IMASK) == EMPTY,
+           "index field = low 32 bits, countdown field = the remaining high bits, COUNTDOWN_ONE = lowest countdown bit, EMPTY fits the index field",
+           ["const " + TS + n for n in ("EMPTY", "INDEX_MASK", "COUNTDOWN_ONE", "COUNTDOWN_MASK")])
+    b = ctx.body(TS + "TaskSet::take_scheduled")
+    if b is None:
+        return
+    cas = [s for s in b.calls("^" + ATOM + "compare_exchange_weak$") if atomics.receiver_field(b, s) == "head"]
+    if len(cas) != 1:
+        return ctx.missing("the CAS on head in take_scheduled")
+    cas = cas[0]
+
+    def is_head(x):
+        xs = x[1] if isinstance(x, tuple) and x and x[0] == "multi" else (x,)
+        return all(isinstance(o, tuple) and (o[0] == "call" and o[2].endswith("Atomic::load") or
+                                            (origin_proj_names(o)[0] == ("call", cas.b, cas.callee))) for o in xs)
+    masked_tests, raw_tests = [], []
+    for x in sorted(b.live_blocks):
+        if b.blocks[x]["term"]["t"] != "switch":
+            continue
+        for y in b.succ[x]:
+            c = Cond(b, x, y)
+            if c.kind != "cmp":
+                continue
+            mc = mask_cmp(c)
+            if mc and is_head(mc[1]):
+                masked_tests.append((c, mc))
+            elif not mc:
+                for side, other in ((c.data[1], c.data[2]), (c.data[2], c.data[1])):
+                    if side and all(is_head(o) for o in side) and other and all(const_eval(o) is not None for o in other):
+                        raw_tests.append(c)
+    ok = bool(masked_tests) and all(mc[2] == IMASK and mc[3] == EMPTY for _, mc in masked_tests) and not raw_tests
+    ctx.ob("taskset|take|emptiness-tests-the-index-field", ok,
+           "take_scheduled tests `head & INDEX_MASK` against EMPTY (never the whole word: the countdown lives in the high bits, so a raw "
+           "comparison misses an empty list with a pending notification request)", [c.site for c, _ in masked_tests] + [c.site for c in raw_tests] or [cas])
+    nv = b.origins(cas.args()[2], cas)
+    arm, disarm = False, False
+    for o in nv:
+        if const_eval(o) == EMPTY:
+            disarm = True
+        elif isinstance(o, tuple) and o[0] == "bin" and o[1] == "BitOr":
+            for x, y in ((o[2], o[3]), (o[3], o[2])):
+                rt, _ = origin_proj_names(x)
+                if const_eval(y) == EMPTY and isinstance(rt, tuple) and rt[0] == "bin" and rt[1].startswith("Mul") and \
+                        (const_eval(rt[3]) == CONE or const_eval(rt[2]) == CONE):
+                    arm = True
+    ctx.ob("taskset|take|new-head-values", arm and disarm and len(nv) == 2,
+           "the head is replaced by (countdown * COUNTDOWN_ONE) | EMPTY when the list is empty (arm the notification) and by EMPTY otherwise "
+           "(take the list)", [cas])
+
+
 def rule_g(ctx):
     """TaskSet: a sub-task's index is its position; the parent is notified when the countdown expires; iteration yields live indices only"""
     P = ctx.prog
+    _taskset_words(ctx)
+    # the active-task count of the set is the number of sub-futures of this broadcast (stale wake-ups of sub-tasks left over from an
+    # earlier, larger broadcast are filtered by `index < task_count`)
+    nb = P.body("ports::output::broadcaster::BroadcastFuture::new")
+    if nb is None:
+        ctx.missing("ports::output::broadcaster::BroadcastFuture::new")
+    else:
+        rs = list(nb.calls(r"task_set::TaskSet::resize$"))
+        aggs = list(nb.aggregates(adt="ports::output::broadcaster::BroadcastFuture"))
+        ok = len(rs) == 1 and len(aggs) == 1
+        if ok:
+            fo = dict(zip(aggs[0].node["r"]["fields"], aggs[0].node["r"]["ops"]))
+            cnt = nb.origins(fo["pending_futures_count"], aggs[0]) if "pending_futures_count" in fo else frozenset()
+            ro = nb.origins(rs[0].args()[1], rs[0])
+            ok = bool(cnt) and ro == cnt and all(o[0] == "call" and o[2].endswith("::len") for o in cnt)
+            if ok:
+                ls = Site(nb, next(iter(cnt))[1], TERM)
+                ok = nb.origins(ls.args()[0], ls) == nb.origins(fo["futures"], aggs[0])
+        ctx.ob("taskset|resized-to-number-of-subfutures", ok,
+               "TaskSet::resize gets futures.len(), the same value as pending_futures_count", rs + aggs)
     w = ctx.body("<util::task_set::Task as futures_task::ArcWake>::wake_by_ref")
     if w:
         nt = list(w.calls(r"^diatomic_waker::WakeSource::notify$"))
